@@ -54,6 +54,7 @@ def run_case(case: dict[str, Any]) -> dict[str, Any]:
     issues = []
     ref = None
     prog = None
+    kcase = None
     clip_active = False
     pols = [simdist.LazyCompletion(seed), simdist.RandomPolicy(seed, 0.4)]
     if case.get('more_policies'):
@@ -71,6 +72,7 @@ def run_case(case: dict[str, Any]) -> dict[str, Any]:
         if ref is None:
             ref = sg
             prog = (out['programs'], out['groups'])
+            kcase = out.get('kcase')
         elif sg.get(0) and ref.get(0):
             same = all(analyze.grads_bitwise_equal(a, b)
                        for r in range(W)
@@ -91,7 +93,8 @@ def run_case(case: dict[str, Any]) -> dict[str, Any]:
         if not r.ok:
             issues.append((f'TLC over extracted GPT programs: {r.violated}',
                            {'cat': 'tlc', 'inv': str(r.violated)}))
-    return {'issues': issues[:5], 'tlc': tl, 'execs': len(pols)}
+    return {'issues': issues[:5], 'tlc': tl, 'execs': len(pols),
+            'kcase': kcase}
 
 
 def cases_for(tier: str, seed: int, hists: list[dict]) -> list[dict]:
@@ -135,7 +138,42 @@ def main(tier: str, seed: int) -> int:
         if o['tlc']:
             states += o['tlc']['distinct']
             trans += o['tlc']['generated']
+    # design level: the protocol derived by spec/GptDist.tla satisfies its
+    # clauses and never stalls, for every topology / layer list in scope
+    from harness import gptdist as _gd
+    if tier == 'quick':
+        dcs = _gd.design_cases(2, 3, 2, limit=100, seed=seed)
+    else:
+        dcs = _gd.design_cases(3, 3, 2) + _gd.design_cases(
+            2, 2, 3, limit=3000, seed=seed)
+    dbad, dstates, dtrans = _gd.check_design(dcs)
+    states += dstates
+    trans += dtrans
+    for j in dbad[:5]:
+        v.violation('spec/GptDist.tla: DesignOK fails on the derived protocol '
+                    f':: {json.dumps({k: x for k, x in dcs[j].items() if k not in ("trace", "ngtrace", "hist")})[:400]}',
+                    {'kind': 'spec', 'inv': 'DesignOK'})
+    # spec/GptDist.tla over the recorded executions: clauses decide,
+    # conformance with the derived protocol is reported as drift only
+    from harness import gptdist
+    kidx = [i for i, o in enumerate(outs) if o.get('kcase')]
+    kbad, kdrift, ks, kt = gptdist.check_all([outs[i]['kcase'] for i in kidx])
+    states += ks
+    trans += kt
+    for j, inv in kbad:
+        cs = cases[kidx[j]]
+        v.violation(
+            f'{gptdist.CLAUSE_TEXT[inv]} [TLC: {inv} of GptDist.tla on the '
+            f'recorded execution] :: {json.dumps(cs["cfg"])[:260]} history '
+            f'{[(x["act"], x["arg"]) for x in cs["h"]]}',
+            {'kind': 'clause', 'inv': inv}, replay={'case': cs})
+    if kdrift:
+        v.note(f'model-drift: {kdrift} executions whose recorded collective '
+               'sequence differs from GptDist.tla although every clause '
+               'holds on them')
     v.coverage = {
+        'gptdist_cases': len(kidx), 'gptdist_drift': kdrift,
+        'gptdist_design_cases': len(dcs),
         'states': max(states, 1), 'transitions': max(trans, 1),
         'traces_validated_against_impl': sum(o['execs'] for o in outs),
         'samples': [{'cfg': cases[0]['cfg'],
@@ -163,4 +201,9 @@ def replay(path: str) -> int:
     rec = json.load(open(path))
     out = run_case(rec['replay']['case'])
     print(out['issues'])
-    return 1 if out['issues'] else 0
+    bad = []
+    if out.get('kcase'):
+        from harness import gptdist
+        bad = gptdist.check_all([out['kcase']])[0]
+        print(bad)
+    return 1 if out['issues'] or bad else 0
